@@ -428,8 +428,42 @@ def parseTag (name : Str) (tagValue : Str) : Except Err (Str × Option Opts) :=
 structure Cfg where
   fromString : Bool := false     -- WithStringValues (form, path, header)
   fromArray : Bool := false      -- WithFromArray (form)
+  canonical : Bool := false      -- WithCanonicalKeyFunc(textproto.CanonicalMIMEHeaderKey) (header)
   pinned : Bool := false         -- behaviour of the pinned commit (see header)
   deriving Repr, DecidableEq
+
+/-- the same configuration on the repaired code -/
+def Cfg.repaired (c : Cfg) : Cfg := { c with pinned := false }
+
+/-! ## canonical keys (header unmarshaler) -/
+
+def upperChar (c : Char) : Char :=
+  if 'a'.toNat ≤ c.toNat ∧ c.toNat ≤ 'z'.toNat then Char.ofNat (c.toNat - 32) else c
+
+def validHeaderByte (c : Char) : Bool :=
+  ('a'.toNat ≤ c.toNat && c.toNat ≤ 'z'.toNat) || ('A'.toNat ≤ c.toNat && c.toNat ≤ 'Z'.toNat) || isDigit c
+  || "!#$%&'*+-.^_`|~".toList.contains c
+
+def canonLoop : Str → Bool → Str
+  | [], _ => []
+  | c :: rest, up => (if up then upperChar c else lowerChar c) :: canonLoop rest (c = '-')
+
+/-- `textproto.CanonicalMIMEHeaderKey` -/
+def canonKey (s : Str) : Str := if s.all validHeaderByte then canonLoop s true else s
+
+/-- the dependency key of `optional=dep` / `optional=!dep` under a canonical-key function: the repaired code
+canonicalises the key after the `!`; the pinned commit canonicalised the whole text, which leaves `!a` as it is -/
+def canonDep (pinned : Bool) (d : Str) : Str :=
+  if pinned then canonKey d
+  else match d with
+    | [] => []
+    | c :: rest => if c = '!' then '!' :: canonKey rest else canonKey (c :: rest)
+
+/-- `parseOptionsWithContext`: key and dependency key through the canonical-key function -/
+def canonTag (canonical pinned : Bool) (kp : Str × Option Opts) : Str × Option Opts :=
+  if canonical then
+    (canonKey kp.1, kp.2.map fun o => if o.optionalDep.isEmpty then o else { o with optionalDep := canonDep pinned o.optionalDep })
+  else kp
 
 /-- the `optional` that `toOptionsWithContext` computes -/
 def effOptional (o : Opts) (key : Str) (m : Obj) : Except Err Bool :=
@@ -639,6 +673,10 @@ def fromArrayValue (c : Cfg) (isSlice : Bool) (j : J) : J :=
     | _ => j
   else j
 
+/-- key and options of a field as the unmarshaler `c` reads them -/
+def parseTagC (c : Cfg) (name : Str) (tagValue : Str) : Except Err (Str × Option Opts) :=
+  (parseTag name tagValue).map (canonTag c.canonical c.pinned)
+
 /-- `parseOptionsWithContext` after the tag is parsed: no options stay `nil`, else `toOptionsWithContext` -/
 def resolveOpts (c : Cfg) (po : Option Opts) (key : Str) (m : Obj) : Except Err (Option Opts) :=
   match po with
@@ -659,7 +697,7 @@ def fieldCore (c : Cfg) (name : Str) (tag : Option Str) (isSlice : Bool) (m : Ob
   match tag with
   | none => .ok z
   | some tv =>
-    match parseTag name tv with
+    match parseTagC c name tv with
     | .error e => .error e
     | .ok (key, po) =>
       match resolveOpts c po key m with
